@@ -8,7 +8,8 @@ on, re-read from /repo's current tree with Python's `ast` on every run:
   * `_create_enum`: a shape string of the member loop (private skip, `ident[prefixlen:]`
     versus `_strip_symbol`, `.lower()`, `is_bitfield` class choice);
   * `_create_const`: the if/elif chain on `unaliased` with, per branch, the `ast.TYPE_*`
-    constants tested and base/exponent of `symbol.const_int % B ** E`; the TYPE_* constant
+    constants tested and base/exponent of `symbol.const_int % B ** E` (E an integer literal or
+    `8 * struct.calcsize('<c>')`, evaluated on this platform); the TYPE_* constant
     chosen in each of the string/int/bool/double branches; the two boolean literals; the
     suffix of the header-file test and the hidden-prefix test;
   * scannerlexer.l: the identifier pattern (justifies "identifiers are ASCII").
@@ -123,7 +124,22 @@ def read_wrap_assign(stmt):
             and isinstance(arg.right, ast.BinOp) and isinstance(arg.right.op, ast.Pow)
     if not ok:
         raise Shape('unexpected wrap statement %s' % src(stmt))
-    return int_const(arg.right.left), int_const(arg.right.right)
+    return int_const(arg.right.left), exponent(arg.right.right)
+
+
+def exponent(node):
+    """an integer literal, or `8 * struct.calcsize('<one format character>')`: the width of a C type of
+    the platform the scanner runs on, evaluated here with the same interpreter (the table then holds
+    this platform's widths; Props/C13.lean states them)"""
+    if isinstance(node, ast.BinOp) and isinstance(node.op, ast.Mult) and \
+            isinstance(node.left, ast.Constant) and node.left.value == 8 and \
+            isinstance(node.right, ast.Call) and src(node.right.func) == 'struct.calcsize' and \
+            len(node.right.args) == 1 and not node.right.keywords and \
+            isinstance(node.right.args[0], ast.Constant) and isinstance(node.right.args[0].value, str) and \
+            len(node.right.args[0].value) == 1 and node.right.args[0].value in 'BHILQNP':
+        import struct
+        return 8 * struct.calcsize(node.right.args[0].value)
+    return int_const(node)
 
 
 def read_const_branches(fn):
